@@ -4,13 +4,13 @@ go 1.22.11
 
 require (
 	github.com/in-toto/in-toto-golang v0.0.0
+	github.com/shibumi/go-pathspec v1.3.0
 	golang.org/x/tools v0.29.0
 )
 
 require (
 	github.com/in-toto/attestation v1.1.1 // indirect
 	github.com/secure-systems-lab/go-securesystemslib v0.9.0 // indirect
-	github.com/shibumi/go-pathspec v1.3.0 // indirect
 	golang.org/x/crypto v0.32.0 // indirect
 	golang.org/x/mod v0.22.0 // indirect
 	golang.org/x/sync v0.10.0 // indirect
